@@ -279,6 +279,20 @@ def _fc(net, units=10):
     return True
 
 
+@inst("fc_fc_sq")
+def _fc_fc_sq(net):
+    """FULLY_CONNECTED to 16 units followed by a square (16 -> 16) one: the weight matrix has the same shape before and after
+    the [out,in] -> [in,out] reorder"""
+    return _fc(net, 16) and _fc(net, 16)
+
+
+@inst("conv_c3_sq")
+def _conv_c3_sq(net):
+    """convolution to 3 channels followed by a 3x3 convolution 3 -> 3: O == H == W == I, the kernel volume has the same shape in
+    every axis order"""
+    return _conv_like(net, "conv", 1, 1, PAD_SAME, "NONE", cout=3) and _conv_like(net, "conv", 3, 1, PAD_SAME, "NONE", cout=3)
+
+
 def _pool(net, op, k, s, pad, act="NONE"):
     if not _hw4(net):
         return False
@@ -732,7 +746,7 @@ SIGMA_Q = [
     "conv1x1", "conv3x3", "conv3x3s2", "conv3x3v_relu6", "conv3x3d2", "dw3x3", "dw3x3s2", "fc", "maxpool2x2",
     "avgpool2x2", "avgpool3x3same", "add_res", "add_const", "add_scalar", "add_bcast_h", "sub_const", "mul_const",
     "min_const", "relu", "leaky_relu", "logistic", "tanh", "hard_swish", "reshape", "concat", "split", "strided_slice",
-    "pad_hw", "pad_c", "mean", "resize_nn2", "quantize", "tconv_s2", "softmax", "cpu_d2s", "cpu_custom", "conv_dynw", "cpu_neg", "tap", "branch_cpu", "branch_npu", "conv_dynw_nobias", "cpu_custom_opt", "conv3x3_c1", "slice", "conv_again", "conv_pair_shared", "reshape_requant",
+    "pad_hw", "pad_c", "mean", "resize_nn2", "quantize", "tconv_s2", "softmax", "cpu_d2s", "cpu_custom", "conv_dynw", "cpu_neg", "tap", "branch_cpu", "branch_npu", "conv_dynw_nobias", "cpu_custom_opt", "conv3x3_c1", "slice", "conv_again", "conv_pair_shared", "reshape_requant", "fc_fc_sq", "conv_c3_sq",
 ]
 SIGMA_T = SIGMA_Q + [n for n, (_, tags) in INSTANCES.items() if "t" in tags]
 SIGMA_C = [n for n, (_, tags) in INSTANCES.items() if "c" in tags]
